@@ -1,0 +1,32 @@
+//go:build verif
+
+package rueidis
+
+// Export wrappers for the verification harness (properties C08 and C18): the two builder kinds of
+// internal/cmds and the cache identity functions. Nothing in this file is compiled without the "verif" tag.
+
+import "github.com/redis/rueidis/internal/cmds"
+
+// VerifSlotFlags are the initial key-slot values of the two builder kinds.
+const (
+	VerifInitSlot = cmds.InitSlot // builder of a cluster client: keys of different slots panic
+	VerifNoSlot   = cmds.NoSlot   // builder of every other client: no cross-slot check
+)
+
+// VerifBuilder returns the command builder a cluster client (cluster=true) or a non-cluster client hands out from B().
+func VerifBuilder(cluster bool) Builder {
+	if cluster {
+		return cmds.NewBuilder(cmds.InitSlot)
+	}
+	return cmds.NewBuilder(cmds.NoSlot)
+}
+
+// VerifKeySlot is the slot function of internal/cmds.
+func VerifKeySlot(key string) uint16 { return cmds.Slot(key) }
+
+// VerifCacheKey is cmds.CacheKey: the (key, command) identity under which DoCache stores the reply.
+func VerifCacheKey(c Cacheable) (key, cmd string) { return cmds.CacheKey(c) }
+
+// VerifMGetCacheCmd and VerifMGetCacheKey give the per-key identity of a cached MGET / JSON.MGET.
+func VerifMGetCacheCmd(c Cacheable) string        { return cmds.MGetCacheCmd(c) }
+func VerifMGetCacheKey(c Cacheable, i int) string { return cmds.MGetCacheKey(c, i) }
